@@ -266,13 +266,16 @@ class TJPTransformer(Transformer[Any, Any]):
         """
         import re
 
-        match = re.match(r"(\d+(?:\.\d+)?)\s*([hdwmy]?)", str(duration_str))
+        # 'min' has to be tried before 'm' (months): '30min' is half an hour
+        match = re.match(r"(\d+(?:\.\d+)?)\s*(min|[hdwmy])?", str(duration_str))
         if match:
             value: float = float(match.group(1))
             unit: str = match.group(2) or "h"
             hours: float
             if unit == "h":
                 hours = value
+            elif unit == "min":
+                hours = value / 60
             elif unit == "d":
                 hours = value * 8  # 8 hours per day
             elif unit == "w":
